@@ -93,6 +93,9 @@ pub struct Structure {
     pub packets: Vec<PacketSpec>,
     /// total_liquid_stake_token is assumed > 0 (false: unconstrained, may be zero)
     pub nonempty_pool: bool,
+    /// the described batches get the ids id_base+1.. ; ids 1..=id_base are finished batches (Received, everything
+    /// withdrawn, all amounts zero) when id_base <= 512, and are left out of the store for larger bases
+    pub id_base: u64,
 }
 
 #[derive(Clone, Debug)]
@@ -154,14 +157,20 @@ pub fn snap(chain: &Chain) -> Snap {
     }
     let mut reqs_idx = BTreeMap::new();
     for r in unstake_requests().idx.by_user.range(s, None, None, Order::Ascending) {
-        let (_k, q) = r.expect("SYMX-HARNESS: index decode");
-        reqs_idx.insert((q.user.clone(), q.batch_id), t::ut(q.amount));
+        // an index entry the code under test cannot decode is a finding about that code, not a harness error: it is left out
+        // here, so I5 (index = primary map) and the query obligations report it
+        if let Ok((_k, q)) = r {
+            reqs_idx.insert((q.user.clone(), q.batch_id), t::ut(q.amount));
+        }
     }
     let mut packets = BTreeMap::new();
     for r in INFLIGHT_PACKETS.range(s, None, None, Order::Ascending) {
-        let (k, p): (u64, IBCTransfer) = r.expect("SYMX-HARNESS: packet decode");
-        assert!(k == p.sequence, "SYMX-HARNESS: packet key != sequence");
-        packets.insert(k, (p.amount.denom.clone(), t::ut(p.amount.amount), p.receiver.clone(), p.status));
+        // likewise for tracked transfers: an undecodable record counts as no record (I7 reports the untracked transfer)
+        if let Ok((k, p)) = r {
+            let (k, p): (u64, IBCTransfer) = (k, p);
+            assert!(k == p.sequence, "SYMX-HARNESS: packet key != sequence");
+            packets.insert(k, (p.amount.denom.clone(), t::ut(p.amount.amount), p.receiver.clone(), p.status));
+        }
     }
     let mut waiting = BTreeMap::new();
     for r in IBC_WAITING_FOR_REPLY.range(s, None, None, Order::Ascending) {
@@ -282,10 +291,26 @@ pub fn build(s: &Structure) -> Built {
     }
     let us = users(&who);
     let mut ghost = Ghost { paid: BTreeMap::new(), wd: BTreeMap::new(), wcount: BTreeMap::new(), don_n: t::ut(v("DonN")), don_l: t::ut(v("DonL")), delivered: t::ut(v("Dlv")), swept: t::ut(v("Sw")) };
-    let nb = s.batches.len() as u64;
-    assert!(nb >= 1 && s.batches.last().unwrap().status == St::Pending, "SYMX-HARNESS: last batch must be pending");
+    let nb = s.id_base + s.batches.len() as u64;
+    assert!(!s.batches.is_empty() && s.batches.last().unwrap().status == St::Pending, "SYMX-HARNESS: last batch must be pending");
+    if s.id_base <= 512 {
+        for id in 1..=s.id_base {
+            let mut batch = Batch::new(id, Uint128::zero(), now);
+            batch.unstake_requests_count = Some(0);
+            batch.expected_native_unstaked = Some(Uint128::zero());
+            batch.received_native_unstaked = Some(Uint128::zero());
+            batch.update_status(BatchStatus::Received, None);
+            ghost.paid.insert(id, "0".into());
+            ghost.wd.insert(id, "0".into());
+            ghost.wcount.insert(id, 0);
+            BATCHES.save(&mut chain.deps.storage, id, &batch).unwrap();
+        }
+    } else {
+        // the prefix of finished batches is left out; the pending batch created by instantiate goes with it
+        BATCHES.remove(&mut chain.deps.storage, 1);
+    }
     for (i, b) in s.batches.iter().enumerate() {
-        let id = i as u64 + 1;
+        let id = s.id_base + i as u64 + 1;
         let due = (now as i64 + b.due) as u64;
         let mut batch = Batch::new(id, v(&format!("T{id}")), due);
         batch.unstake_requests_count = Some(b.reqs.len() as u64 + b.withdrawn);
@@ -388,9 +413,11 @@ pub fn lst_held(chain: &Chain) -> T {
 pub fn inv_structural(sn: &Snap, chain: &Chain, g: &Ghost) -> Vec<String> {
     let mut bad = vec![];
     let ids: Vec<u64> = sn.batches.keys().cloned().collect();
-    let max = ids.len() as u64;
-    if ids != (1..=max).collect::<Vec<u64>>() {
-        bad.push(format!("I4: batch ids are not 1..=max: {ids:?}"));
+    // contiguous ids; they start at 1 unless the structure left out a prefix of finished batches (id_base > 512)
+    let first = ids.first().cloned().unwrap_or(1);
+    let max = first + ids.len() as u64 - 1;
+    if ids != (first..=max).collect::<Vec<u64>>() || (first != 1 && first <= 513) {
+        bad.push(format!("I4: batch ids are not contiguous from 1: {ids:?}"));
     }
     if sn.pending_id != max {
         bad.push(format!("I4: pending id {} is not the highest id {max}", sn.pending_id));
@@ -558,7 +585,14 @@ pub fn assume_envelope(sn: &Snap, chain: &Chain, g: &Ghost, env: Envelope) {
 
 pub fn assume_inv(chain: &Chain, g: &Ghost, env: Envelope) -> Snap {
     let sn = snap(chain);
-    let bad = inv_structural(&sn, chain, g);
+    let mut bad = inv_structural(&sn, chain, g);
+    // the start state is written through the contract's own storage types; when reading it back through the same types
+    // disagrees (an index that cannot decode its entries), that is a finding about the code, not a harness error
+    if bad.iter().any(|c| c.starts_with("I5: by_user index")) {
+        symcore::prove("C05:I5: by_user index and primary request map agree on a store written through the contract's IndexedMap", "false".into());
+        symcore::prove("C17:the by_user index reads back every request stored through the contract's IndexedMap", "false".into());
+        bad.retain(|c| !c.starts_with("I5: by_user index"));
+    }
     assert!(bad.is_empty(), "SYMX-HARNESS: built structure violates the structural invariant: {bad:?}");
     for (_, c) in inv_terms(&sn, chain, g) {
         symcore::assume(c);
@@ -589,7 +623,7 @@ pub fn core_structures(cfg: &CfgSpec) -> Vec<Structure> {
     use PacketLifecycleStatus::*;
     let mut v = vec![];
     let mut add = |name: &str, batches: Vec<BatchSpec>, packets: Vec<PacketSpec>, nonempty: bool| {
-        v.push(Structure { name: format!("{}/{}", cfg.name(), name), cfg: cfg.clone(), batches, packets, nonempty_pool: nonempty });
+        v.push(Structure { name: format!("{}/{}", cfg.name(), name), cfg: cfg.clone(), batches, packets, nonempty_pool: nonempty, id_base: 0 });
     };
     // S0: fresh pool (pending batch only, nothing requested)
     add("empty", vec![bs(St::Pending, &[], 0, 1)], vec![], false);
@@ -647,7 +681,7 @@ pub fn extended_structures(cfg: &CfgSpec) -> Vec<Structure> {
     use PacketLifecycleStatus::*;
     let mut v = vec![];
     let mut add = |name: &str, batches: Vec<BatchSpec>, packets: Vec<PacketSpec>, nonempty: bool| {
-        v.push(Structure { name: format!("{}/{}", cfg.name(), name), cfg: cfg.clone(), batches, packets, nonempty_pool: nonempty });
+        v.push(Structure { name: format!("{}/{}", cfg.name(), name), cfg: cfg.clone(), batches, packets, nonempty_pool: nonempty, id_base: 0 });
     };
     add("pend3", vec![bs(St::Pending, &[0, 1, 2], 0, -1)], vec![], true);
     add("rec3w2", vec![bs(St::Received, &[2], 2, 0), bs(St::Pending, &[0], 0, 0)], vec![], true);
@@ -669,6 +703,12 @@ pub fn extended_structures(cfg: &CfgSpec) -> Vec<Structure> {
     // page-size boundary of recover: 11 refundable packets to the staker
     let many: Vec<PacketSpec> = (1..=11).map(|i| ps(i, PDenom::Native, PRecv::Staker, if i % 2 == 0 { AckFailure } else { TimedOut })).collect();
     add("refund11", vec![bs(St::Pending, &[], 0, 1)], many, true);
+    drop(add);
+    // batch ids around the byte boundaries of their big-endian keys (127|128, 255|256) behind a prefix of finished batches,
+    // and far beyond (2^32, 2^63) with that prefix left out
+    for (nm, base) in [("ids127", 125u64), ("ids255", 253), ("ids2p32", (1u64 << 32) - 2), ("ids2p63", (1u64 << 63) - 2)] {
+        v.push(Structure { name: format!("{}/{}", cfg.name(), nm), cfg: cfg.clone(), batches: vec![bs(St::Received, &[0, 1], 1, 0), bs(St::Received, &[1], 0, 0), bs(St::Submitted, &[0, 1], 0, 0), bs(St::Pending, &[0, 2], 0, -1)], packets: vec![], nonempty_pool: true, id_base: base });
+    }
     v
 }
 
@@ -717,7 +757,7 @@ pub fn generated_structures(cfg: &CfgSpec) -> Vec<Structure> {
         }
     }
     for (k, sh) in shapes.into_iter().enumerate() {
-        v.push(Structure { name: format!("{}/gen-b{k}", cfg.name()), cfg: cfg.clone(), batches: sh, packets: vec![], nonempty_pool: true });
+        v.push(Structure { name: format!("{}/gen-b{k}", cfg.name()), cfg: cfg.clone(), batches: sh, packets: vec![], nonempty_pool: true, id_base: 0 });
     }
     // packet sets
     let mut kinds = vec![];
@@ -730,17 +770,17 @@ pub fn generated_structures(cfg: &CfgSpec) -> Vec<Structure> {
     }
     let mut k = 0;
     for (i, a) in kinds.iter().enumerate() {
-        v.push(Structure { name: format!("{}/gen-p{k}", cfg.name()), cfg: cfg.clone(), batches: vec![bs(St::Pending, &[0], 0, 0)], packets: vec![ps(3, a.0.clone(), a.1.clone(), a.2.clone())], nonempty_pool: true });
+        v.push(Structure { name: format!("{}/gen-p{k}", cfg.name()), cfg: cfg.clone(), batches: vec![bs(St::Pending, &[0], 0, 0)], packets: vec![ps(3, a.0.clone(), a.1.clone(), a.2.clone())], nonempty_pool: true, id_base: 0 });
         k += 1;
         for b in kinds.iter().skip(i) {
-            v.push(Structure { name: format!("{}/gen-p{k}", cfg.name()), cfg: cfg.clone(), batches: vec![bs(St::Pending, &[0], 0, 0)], packets: vec![ps(3, a.0.clone(), a.1.clone(), a.2.clone()), ps(5, b.0.clone(), b.1.clone(), b.2.clone())], nonempty_pool: true });
+            v.push(Structure { name: format!("{}/gen-p{k}", cfg.name()), cfg: cfg.clone(), batches: vec![bs(St::Pending, &[0], 0, 0)], packets: vec![ps(3, a.0.clone(), a.1.clone(), a.2.clone()), ps(5, b.0.clone(), b.1.clone(), b.2.clone())], nonempty_pool: true, id_base: 0 });
             k += 1;
         }
     }
     for len in [3usize, 4] {
         for code in 0..(1u32 << len) {
             let pk: Vec<PacketSpec> = (0..len).map(|i| ps(i as u64 + 1, if code >> i & 1 == 0 { PDenom::Native } else { PDenom::Lst }, PRecv::Staker, if i % 2 == 0 { TimedOut } else { AckFailure })).collect();
-            v.push(Structure { name: format!("{}/gen-q{len}-{code}", cfg.name()), cfg: cfg.clone(), batches: vec![bs(St::Pending, &[0], 0, 0)], packets: pk, nonempty_pool: true });
+            v.push(Structure { name: format!("{}/gen-q{len}-{code}", cfg.name()), cfg: cfg.clone(), batches: vec![bs(St::Pending, &[0], 0, 0)], packets: pk, nonempty_pool: true, id_base: 0 });
         }
     }
     v
